@@ -207,12 +207,12 @@ def _scene_job(ctx, payload):
     for name, gst, exact in dets:
         def upd(it_, a, k, _n=name):
             received[_n] = (k.get("E"), k.get("H"), k.get("inv_permittivity"), k.get("time_step"))
-            return {"rec": 0}
+            return {"rec": NdArr((1,), [0])}
 
         dobjs.append(Obj(D, dict(name=name, inverse=False, exact_interpolation=exact, _is_on_at_time_step_arr=[True, True], _grid_slice_tuple=gst, update=Builtin("update", upd)), name))
     OC = ix.cls("fdtdx.fdtd.container.ObjectContainer")
     objs = Obj(OC, {"object_list": [vol] + bobjs + dobjs, "volume_idx": 0}, "objects")
-    arrays = sc.arrays(fields=sc.fields(E=E, H=H), inv_permittivities=ie, inv_permeabilities=1, detector_states={d.attrs["name"]: {"rec": 0} for d in dobjs})
+    arrays = sc.arrays(fields=sc.fields(E=E, H=H), inv_permittivities=ie, inv_permeabilities=1, detector_states={d.attrs["name"]: {"rec": NdArr((1,), [0])} for d in dobjs})
     stub_repo_calls(it, {"_check_updated_state_layout": lambda it_, a, k: None})
     f = ix.function("fdtdx.fdtd.update.update_detector_states")
     ctx.unit(f.where())
